@@ -34,6 +34,19 @@ pub struct Scenario {
     /// zerv's wall clock at the first observation and its advance per observation
     pub sim_now: i64,
     pub now_step: i64,
+    /// override-only states (`--source none`): the "for all inputs" part of the quantifier under
+    /// the same flag set and the same simulated clock
+    #[serde(default)]
+    pub none_states: Vec<NoneState>,
+}
+
+#[derive(Serialize, Deserialize, Clone, Debug, PartialEq)]
+pub struct NoneState {
+    pub tag: String,
+    pub branch: String,
+    pub distance: Option<u64>,
+    /// "", "--dirty", "--no-dirty", "--clean"
+    pub dirty: String,
 }
 
 pub const PRESETS: &[&str] = &[
@@ -84,6 +97,31 @@ pub fn generate(r: &mut Rng, _tier: Tier, _group: u64) -> serde_json::Value {
         }
     };
     let mut steps: Vec<Step> = vec![];
+    // a quarter of the runs start from a directed workflow skeleton: two lines of development
+    // merged into each other in both directions, observed after every step
+    if r.chance(1, 4) {
+        let cm = |r: &mut Rng| Step::W(Op::Commit { actor: 0, dt: r.range(1, 1000), adt: 0, with_file: r.chance(1, 2) });
+        let br = flow_branch(r);
+        steps.push(Step::W(Op::Branch { name: br, from: None }));
+        steps.push(Step::W(Op::Checkout { branch: 1 }));
+        steps.push(cm(r));
+        steps.push(Step::Observe);
+        for _ in 0..(1 + r.below(3)) {
+            steps.push(Step::W(Op::Checkout { branch: 0 }));
+            steps.push(cm(r));
+            if r.chance(1, 2) {
+                steps.push(Step::W(Op::Merge { others: vec![1], actor: 0, dt: 5 }));
+                steps.push(Step::Observe);
+            }
+            steps.push(Step::W(Op::Checkout { branch: 1 }));
+            steps.push(Step::W(Op::Merge { others: vec![0], actor: 0, dt: 5 }));
+            steps.push(Step::Observe);
+            if r.chance(1, 2) {
+                steps.push(cm(r));
+                steps.push(Step::Observe);
+            }
+        }
+    }
     let n = r.geometric(1, 30, 8);
     let w = [30u32, 12, 12, 8, 6, 6, 4, 8, 4, 3, 12, 2];
     for _ in 0..n {
@@ -133,7 +171,31 @@ pub fn generate(r: &mut Rng, _tier: Tier, _group: u64) -> serde_json::Value {
         _ => (last + r.range(1, 50_000_000)).min(4_294_967_000),
     };
     let now_step = *r.pick(&[0i64, 1, 1, 60, 86_400]);
-    let sc = Scenario { actors, first_tag, steps, flags, sim_now, now_step };
+    let mut none_states = vec![];
+    let nn = 4 + r.below(8);
+    while (none_states.len() as u64) < nn {
+        let (x, y, z) = (crate::names::small(r), crate::names::small(r), crate::names::small(r));
+        let tag = match r.below(8) {
+            0..=4 => format!("v{x}.{y}.{z}"),
+            5 => format!("{x}.{y}.{z}"),
+            6 => format!("v{x}.{y}.{z}-{}.{}", r.pick(&["alpha", "beta", "rc"]), r.below(100000)),
+            _ => format!("v{x}.{y}.{z}-{}.{}.post.{}", r.pick(&["alpha", "beta", "rc"]), r.below(100), r.below(20)),
+        };
+        let branch = if r.chance(1, 4) { "main".to_string() } else { flow_branch(r) };
+        let dirty = r.pick(&["", "", "--dirty", "--no-dirty", "--clean"]).to_string();
+        let base = *r.pick(&[0u64, 0, 1, 2, 9, 10, 99, 2147483647]);
+        if dirty == "--clean" {
+            none_states.push(NoneState { tag, branch, distance: None, dirty });
+        } else if r.chance(1, 3) {
+            // a ladder of distances on one branch and tag (clause 3)
+            for step in [0u64, 1, 6] {
+                none_states.push(NoneState { tag: tag.clone(), branch: branch.clone(), distance: Some(base.saturating_add(step).min(4294967295)), dirty: dirty.clone() });
+            }
+        } else {
+            none_states.push(NoneState { tag, branch, distance: if r.chance(1, 6) { None } else { Some(base) }, dirty });
+        }
+    }
+    let sc = Scenario { actors, first_tag, steps, flags, sim_now, now_step, none_states };
     serde_json::to_value(sc).unwrap()
 }
 
@@ -251,6 +313,77 @@ fn run_flow(ctx: &Ctx, rd: &RunDir, w: &World, flags: &[String], fmt: &str, now:
     run_zerv(ctx, rd, &ZervCall::new(&a, Path::new("/"), now), stats)
 }
 
+fn tag_shape_of(tag: &str) -> &'static str {
+    if final_xyz(tag).is_some() {
+        "final"
+    } else if flow_prerelease(tag).is_some() {
+        "flow-prerelease"
+    } else {
+        "other"
+    }
+}
+
+/// Clauses 1, 2 and 4 for one output format of one observed state.  Returns the printed version.
+fn judge_one(f: &str, o: &crate::proc::Outcome, tag: &str, at_tag_clean: bool, state: &str, stats: &mut Stats, viol: &mut Vec<Violation>) -> Option<String> {
+    let tag_shape = tag_shape_of(tag);
+    let line = o.out_str();
+    let got = line.strip_suffix('\n').unwrap_or(&line).to_string();
+    if !o.ok() {
+        if tag_shape == "other" {
+            return None; // no clause speaks about other base tags
+        }
+        viol.push(mk(
+            if tag_shape == "final" { "clause2-yields-a-version" } else { "clause4-yields-a-version" },
+            f,
+            "a version",
+            format!("{} {}", o.status_str(), short(&o.err_str(), 300)),
+            state,
+        ));
+        return None;
+    }
+    let Some(v) = parse_out(f, &got) else {
+        viol.push(mk("output-format", f, format!("a {f} version"), &got, state));
+        return Some(got);
+    };
+    if let Some((x, y, z)) = final_xyz(tag) {
+        let lo = format!("{x}.{y}.{z}");
+        let hi = format!("{x}.{y}.{}", add_one(&z));
+        if at_tag_clean {
+            stats.bump("clause1_evaluated");
+            if got != lo {
+                viol.push(mk("clause1-exact-at-clean-tag", f, &lo, &got, state));
+            }
+        } else {
+            stats.bump("clause2_evaluated");
+            let plo = parse_out(f, &lo).unwrap();
+            let phi = parse_out(f, &hi).unwrap();
+            if cmp_parsed(&plo, &v) != Ordering::Less {
+                viol.push(mk("clause2-lower-bound", f, format!("> {lo}"), &got, state));
+            } else if cmp_parsed(&v, &phi) != Ordering::Less {
+                viol.push(mk("clause2-upper-bound", f, format!("< {hi}"), &got, state));
+            }
+        }
+    } else if let Some((x, y, z, l, n, p)) = flow_prerelease(tag) {
+        if at_tag_clean {
+            stats.bump("clause4_evaluated");
+            let want = if f == "semver" {
+                tag.strip_prefix('v').unwrap_or(tag).to_string()
+            } else {
+                let lab = match l.as_str() {
+                    "alpha" => "a",
+                    "beta" => "b",
+                    _ => "rc",
+                };
+                format!("{x}.{y}.{z}{lab}{n}{}", p.map(|p| format!(".post{p}")).unwrap_or_default())
+            };
+            if got != want {
+                viol.push(mk("clause4-prerelease-tag-unchanged", f, &want, &got, state));
+            }
+        }
+    }
+    Some(got)
+}
+
 pub fn execute(ctx: &Ctx, scv: &serde_json::Value, rd: &RunDir, stats: &mut Stats) -> HResult<Vec<Violation>> {
     let sc: Scenario = serde_json::from_value(scv.clone()).map_err(|e| HarnessError(format!("bad C03 scenario: {e}")))?;
     let mut w = World::create(&rd.repo(), &rd.home(), sc.actors.clone())?;
@@ -264,7 +397,6 @@ pub fn execute(ctx: &Ctx, scv: &serde_json::Value, rd: &RunDir, stats: &mut Stat
     let preset = flag_val(&sc.flags, "--schema").unwrap_or("default").to_string();
     let explicit_mode = flag_val(&sc.flags, "--post-mode");
     let custom_rules = flag_val(&sc.flags, "--branch-rules").is_some();
-    let flags_invalid = false;
     let nsteps = sc.steps.len();
 
     for (i, step) in sc.steps.iter().chain(std::iter::once(&Step::Observe)).enumerate() {
@@ -352,12 +484,14 @@ pub fn execute(ctx: &Ctx, scv: &serde_json::Value, rd: &RunDir, stats: &mut Stat
                 let commit_mode = match explicit_mode {
                     Some("commit") => true,
                     Some(_) => false,
-                    None => !custom_rules && !branch.as_deref().map(|b| b.starts_with("release/")).unwrap_or(false),
+                    // zerv's `release/*` rule matches every branch that merely starts with "release"
+                    // (prefix test without the slash), so the mode is only known outside that prefix
+                    None => !custom_rules && !branch.as_deref().map(|b| b.starts_with("release")).unwrap_or(false),
                 };
                 let mut rec = Record { step: i, branch: branch.clone(), head: h, tag: tag.clone(), distance: dist, dirty, commit_mode, out: [None, None] };
                 let at_tag_clean = dist == 0 && !dirty;
                 let state = format!("tag={tag} distance={dist} dirty={dirty} branch={branch:?} preset={preset} flags={:?} now={now}", sc.flags);
-                let tag_shape = if final_xyz(&tag).is_some() { "final" } else if flow_prerelease(&tag).is_some() { "flow-prerelease" } else { "other" };
+                let tag_shape = tag_shape_of(&tag);
                 stats.distinct_key(&format!(
                     "{tag_shape}|{}|{}|{dirty}|{preset}|{:?}|{:?}|{:?}",
                     match branch.as_deref() { None => "detached", Some("main") => "main", Some("develop") => "develop", Some(b) if b.starts_with("release/") => "release", Some(b) if b.starts_with("feature/") => "feature", Some(b) if b.starts_with("hotfix/") => "hotfix", _ => "other" },
@@ -365,61 +499,7 @@ pub fn execute(ctx: &Ctx, scv: &serde_json::Value, rd: &RunDir, stats: &mut Stat
                     explicit_mode, flag_val(&sc.flags, "--hash-branch-len"), custom_rules
                 ));
                 for (k, f, o) in &outs {
-                    let line = o.out_str();
-                    let got = line.strip_suffix('\n').unwrap_or(&line).to_string();
-                    if !o.ok() {
-                        if flags_invalid {
-                            continue;
-                        }
-                        if tag_shape == "other" {
-                            continue; // no clause speaks about other base tags
-                        }
-                        viol.push(mk(
-                            if tag_shape == "final" { "clause2-yields-a-version" } else { "clause4-yields-a-version" },
-                            f,
-                            "a version",
-                            format!("{} {}", o.status_str(), short(&o.err_str(), 300)),
-                            &state,
-                        ));
-                        continue;
-                    }
-                    rec.out[*k] = Some(got.clone());
-                    let Some(v) = parse_out(f, &got) else {
-                        viol.push(mk("output-format", f, format!("a {f} version"), &got, &state));
-                        continue;
-                    };
-                    if let Some((x, y, z)) = final_xyz(&tag) {
-                        let lo = format!("{x}.{y}.{z}");
-                        let hi = format!("{x}.{y}.{}", add_one(&z));
-                        if at_tag_clean {
-                            stats.bump("clause1_evaluated");
-                            if got != lo {
-                                viol.push(mk("clause1-exact-at-clean-tag", f, &lo, &got, &state));
-                            }
-                        } else {
-                            stats.bump("clause2_evaluated");
-                            let plo = parse_out(f, &lo).unwrap();
-                            let phi = parse_out(f, &hi).unwrap();
-                            if cmp_parsed(&plo, &v) != Ordering::Less {
-                                viol.push(mk("clause2-lower-bound", f, format!("> {lo}"), &got, &state));
-                            } else if cmp_parsed(&v, &phi) != Ordering::Less {
-                                viol.push(mk("clause2-upper-bound", f, format!("< {hi}"), &got, &state));
-                            }
-                        }
-                    } else if let Some((x, y, z, l, n, p)) = flow_prerelease(&tag) {
-                        if at_tag_clean {
-                            stats.bump("clause4_evaluated");
-                            let want = if *f == "semver" {
-                                tag.strip_prefix('v').unwrap_or(&tag).to_string()
-                            } else {
-                                let lab = match l.as_str() { "alpha" => "a", "beta" => "b", _ => "rc" };
-                                format!("{x}.{y}.{z}{lab}{n}{}", p.map(|p| format!(".post{p}")).unwrap_or_default())
-                            };
-                            if got != want {
-                                viol.push(mk("clause4-prerelease-tag-unchanged", f, &want, &got, &state));
-                            }
-                        }
-                    }
+                    rec.out[*k] = judge_one(f, o, &tag, at_tag_clean, &state, stats, &mut viol);
                 }
                 // clause 3 over the recorded history
                 if rec.commit_mode && final_xyz(&rec.tag).is_some() {
@@ -461,6 +541,63 @@ pub fn execute(ctx: &Ctx, scv: &serde_json::Value, rd: &RunDir, stats: &mut Stat
             }
         }
     }
+    // ---- the override-only family: same flags, same clock, no repository
+    let mut prev: Option<(NoneState, [Option<String>; 2])> = None;
+    for (ni, ns) in sc.none_states.iter().enumerate() {
+        if viol.len() >= 24 {
+            break;
+        }
+        now = (now + sc.now_step).min(4_294_967_295);
+        let dist = if ns.dirty == "--clean" { 0 } else { ns.distance.unwrap_or(0) };
+        let dirty = ns.dirty == "--dirty";
+        let at_tag_clean = dist == 0 && !dirty;
+        let commit_mode = match explicit_mode {
+            Some("commit") => true,
+            Some(_) => false,
+            None => !custom_rules && !ns.branch.starts_with("release"),
+        };
+        let state = format!("source=none tag={} distance={dist} dirty={dirty} ({:?}) branch={:?} preset={preset} flags={:?} now={now}", ns.tag, ns.dirty, ns.branch, sc.flags);
+        let mut outs: [Option<String>; 2] = [None, None];
+        for (k, f) in [(0usize, "semver"), (1, "pep440")] {
+            let mut args: Vec<String> = vec![
+                "flow".into(), "--source".into(), "none".into(), "--tag-version".into(), ns.tag.clone(), "--bumped-branch".into(), ns.branch.clone(),
+                "--bumped-commit-hash".into(), "g0123456789abcdef".into(), "--output-format".into(), f.into(),
+            ];
+            if let Some(d) = ns.distance {
+                if ns.dirty != "--clean" {
+                    args.extend(["--distance".into(), d.to_string()]);
+                }
+            }
+            if !ns.dirty.is_empty() {
+                args.push(ns.dirty.clone());
+            }
+            args.extend(sc.flags.iter().cloned());
+            let a: Vec<&str> = args.iter().map(|s| s.as_str()).collect();
+            let o = run_zerv(ctx, rd, &ZervCall::new(&a, Path::new("/"), now), stats);
+            stats.event(format!("none-state {ni} {f} {state} -> {} {:?} {}", o.status_str(), short(&o.out_str(), 200), short(&o.err_str(), 200)));
+            outs[k] = judge_one(f, &o, &ns.tag, at_tag_clean, &state, stats, &mut viol);
+        }
+        stats.bump("override_states");
+        stats.distinct_key(&format!("none|{}|{}|{}|{dirty}|{preset}|{:?}|{:?}|{custom_rules}", tag_shape_of(&ns.tag), if ns.branch.starts_with("release/") { "release" } else if ns.branch == "main" { "main" } else { "other" }, dist.min(11), explicit_mode, flag_val(&sc.flags, "--hash-branch-len")));
+        // clause 3 between successive rungs of a distance ladder
+        if let Some((p, pouts)) = &prev {
+            let pd = p.distance.unwrap_or(0);
+            if commit_mode && final_xyz(&ns.tag).is_some() && p.tag == ns.tag && p.branch == ns.branch && p.dirty == ns.dirty && ns.dirty != "--clean" && pd < dist {
+                for k in 0..2 {
+                    let f = if k == 0 { "semver" } else { "pep440" };
+                    if let (Some(a), Some(b)) = (&pouts[k], &outs[k]) {
+                        if let (Some(pa), Some(pb)) = (parse_out(f, a), parse_out(f, b)) {
+                            stats.bump("clause3_pairs_evaluated");
+                            if cmp_parsed(&pa, &pb) != Ordering::Less {
+                                viol.push(mk("clause3-more-commits-greater", f, format!("{a} < {b}"), format!("{a} >= {b}"), format!("distance {pd} -> {dist}; {state}")));
+                            }
+                        }
+                    }
+                }
+            }
+        }
+        prev = Some((ns.clone(), outs));
+    }
     stats.git_spawns += w.nspawn;
     if w.t_min <= w.t_max {
         stats.time(w.t_min);
@@ -492,6 +629,19 @@ pub fn shrink(scv: &serde_json::Value) -> Vec<serde_json::Value> {
                 out.push(s);
             }
         }
+    }
+    if !sc.none_states.is_empty() {
+        let mut s = sc.clone();
+        s.none_states.clear();
+        out.push(s);
+        for i in 0..sc.none_states.len() {
+            let mut s = sc.clone();
+            s.none_states.remove(i);
+            out.push(s);
+        }
+        let mut s = sc.clone();
+        s.steps.clear();
+        out.push(s);
     }
     // drop flag pairs
     let mut i = 0;
